@@ -869,3 +869,37 @@ func Steps() int {
 	}
 	return cur.steps
 }
+
+// ReleaseSite releases the held threads whose spawn site contains substr and
+// drains; it reports how many were released.
+func ReleaseSite(substr string) int {
+	w := cur
+	if w == nil {
+		return 0
+	}
+	n := 0
+	for _, t := range w.threads {
+		if t.held && !t.done && strings.Contains(t.spawnSite, substr) {
+			t.held = false
+			n++
+		}
+	}
+	if n > 0 {
+		Drain()
+	}
+	return n
+}
+
+// HeldCount returns how many held threads have a spawn site containing substr.
+func HeldCount(substr string) int {
+	n := 0
+	if cur == nil {
+		return 0
+	}
+	for _, t := range cur.threads {
+		if t.held && !t.done && strings.Contains(t.spawnSite, substr) {
+			n++
+		}
+	}
+	return n
+}
